@@ -1,0 +1,60 @@
+// Copyright (C) 2025-2026 Michael S. Klishin and Contributors
+//
+// Licensed under the Apache License, Version 2.0 (the "License");
+// you may not use this file except in compliance with the License.
+// You may obtain a copy of the License at
+//
+// http://www.apache.org/licenses/LICENSE-2.0
+//
+// Unless required by applicable law or agreed to in writing, software
+// distributed under the License is distributed on an "AS IS" BASIS,
+// WITHOUT WARRANTIES OR CONDITIONS OF ANY KIND, either express or implied.
+// See the License for the specific language governing permissions and
+// limitations under the License.
+
+//! Verification hooks. Compiled only with `RUSTFLAGS="--cfg edp_rs_verif"`; absent from normal builds.
+//!
+//! A *point* is a named place between two accesses to shared state. When a process-global callback is
+//! installed with [`set_hook`], every thread reaching a point calls it with the point's name; the callback
+//! may block, which lets an external deterministic scheduler decide which thread takes the next step.
+//! Without a callback every function here is a no-op.
+
+use std::sync::{Arc, Mutex, RwLock, TryLockError};
+
+type Hook = Arc<dyn Fn(&str) + Send + Sync>;
+
+static HOOK: RwLock<Option<Hook>> = RwLock::new(None);
+
+/// Installs (or with `None` removes) the process-global callback.
+pub fn set_hook(hook: Option<Box<dyn Fn(&str) + Send + Sync>>) {
+    let mut slot = HOOK.write().unwrap_or_else(|e| e.into_inner());
+    *slot = hook.map(Arc::from);
+}
+
+fn current() -> Option<Hook> {
+    HOOK.read().unwrap_or_else(|e| e.into_inner()).clone()
+}
+
+/// A yield point. No-op when no callback is installed.
+#[inline]
+pub fn point(name: &str) {
+    if let Some(h) = current() {
+        h(name)
+    }
+}
+
+/// A yield point in front of `mutex.lock()` with a non-blocking probe: the callback is called with `name`;
+/// when it returns the mutex is probed with `try_lock`, and if another thread holds it the callback is
+/// called with `"<name>:busy"` (the scheduler must then run somebody else) and the point is retried.
+/// On return the mutex was free (or poisoned) an instant ago, so under a token-passing scheduler the
+/// `lock()` that follows does not block. No-op when no callback is installed.
+pub fn lock_point<T>(name: &str, mutex: &Mutex<T>) {
+    let Some(h) = current() else { return };
+    loop {
+        h(name);
+        match mutex.try_lock() {
+            Err(TryLockError::WouldBlock) => h(&format!("{name}:busy")),
+            _ => return,
+        }
+    }
+}
